@@ -835,6 +835,7 @@ func main() {
 	e := &emitter{sink: sink}
 	probes(e)
 	floatProbes(e)
+	identityFreshness(e)
 	for i := 0; i < *n; i++ {
 		genCase(r, e)
 	}
